@@ -399,6 +399,18 @@ pub fn validate_json_from_str(cddl: &str, json: &str) -> std::result::Result<JsV
     .map(|_| JsValue::default())
 }
 
+/// A malformed CBOR document is a CBOR parsing error, not a CDDL one: keep
+/// it distinguishable from a malformed schema.
+#[cfg(not(target_arch = "wasm32"))]
+#[cfg(feature = "cbor")]
+fn cbor_decode_error(e: cbor_value::DecodeError) -> cbor::Error<std::io::Error> {
+  cbor::Error::CBORParsing(match e {
+    cbor_value::DecodeError::Io(io) => ciborium::de::Error::Io(io),
+    cbor_value::DecodeError::Syntax(offset) => ciborium::de::Error::Syntax(offset),
+    other => ciborium::de::Error::Semantic(None, other.to_string()),
+  })
+}
+
 #[cfg(not(target_arch = "wasm32"))]
 #[cfg(feature = "cbor")]
 #[cfg(feature = "additional-controls")]
@@ -410,7 +422,7 @@ pub fn validate_cbor_from_slice(
 ) -> cbor::Result<std::io::Error> {
   let cddl = cddl_from_str(cddl, true).map_err(cbor::Error::CDDLParsing)?;
 
-  let cbor = decode_cbor(cbor_slice).map_err(|e| cbor::Error::CDDLParsing(e.to_string()))?;
+  let cbor = decode_cbor(cbor_slice).map_err(cbor_decode_error)?;
 
   let mut cv = CBORValidator::new(&cddl, cbor, enabled_features);
   cv.validate()
@@ -422,7 +434,7 @@ pub fn validate_cbor_from_slice(
 /// Validate CBOR slice from a given CDDL document string
 pub fn validate_cbor_from_slice(cddl: &str, cbor_slice: &[u8]) -> cbor::Result<std::io::Error> {
   let cddl = cddl_from_str(cddl, true).map_err(cbor::Error::CDDLParsing)?;
-  let cbor = decode_cbor(cbor_slice).map_err(|e| cbor::Error::CDDLParsing(e.to_string()))?;
+  let cbor = decode_cbor(cbor_slice).map_err(cbor_decode_error)?;
 
   let mut cv = CBORValidator::new(&cddl, cbor);
   cv.validate()
